@@ -6,6 +6,7 @@ import (
 	"flag"
 	"fmt"
 	"os"
+	"os/exec"
 	"path/filepath"
 	"runtime/debug"
 	"sort"
@@ -145,10 +146,15 @@ func run(prop, tier, repo, verif string, seed int, onlyKey string) int {
 			res.Notes = append(res.Notes, c.Notes...)
 		}()
 	}
-	// fixture self-test of this property's generic rules
-	fx, fxFail := rules.RunFixtures(prop, filepath.Join(verif, "checker", "fixtures"), tier == "thorough")
-	res.Fixtures = fx
-	res.Fatal = append(res.Fatal, fxFail...)
+	// thorough: sensitivity self-test — the confirmed seeded changes of this property, applied to a scratch copy of the
+	// current tree, must be reported by this property's rules (informational: recorded in the evidence, never a verdict
+	// about /repo)
+	if tier == "thorough" && onlyKey == "" && os.Getenv("MOSVERIF_NO_SELFTEST") == "" {
+		res.Fixtures = sensitivity(prop, repo, verif)
+		for _, l := range res.Fixtures {
+			fmt.Println("SELFTEST", l)
+		}
+	}
 	for a := range assume {
 		res.Assumptions = append(res.Assumptions, a)
 	}
@@ -162,6 +168,69 @@ func run(prop, tier, repo, verif string, seed int, onlyKey string) int {
 		return 0
 	}
 	return res.Finish(verif, seed)
+}
+
+// sensitivity applies each /verif/seeded/<prop>?/patch.diff to a scratch copy of repo (outside /repo and /verif,
+// removed afterwards), runs the property's rules on the copy and reports whether they fire.
+func sensitivity(prop, repo, verif string) []string {
+	var out []string
+	seeds, _ := filepath.Glob(filepath.Join(verif, "seeded", prop+"?", "patch.diff"))
+	sort.Strings(seeds)
+	for _, patch := range seeds {
+		id := filepath.Base(filepath.Dir(patch))
+		line := func() string {
+			tmp, err := os.MkdirTemp("", "mosverif-selftest-")
+			if err != nil {
+				return "seed " + id + ": no scratch directory: " + err.Error()
+			}
+			defer os.RemoveAll(tmp)
+			if b, err := exec.Command("rsync", "-a", "--exclude", ".git", repo+"/", tmp+"/").CombinedOutput(); err != nil {
+				return "seed " + id + ": copy failed: " + strings.TrimSpace(string(b))
+			}
+			ap := exec.Command("git", "apply", patch)
+			ap.Dir = tmp
+			if b, err := ap.CombinedOutput(); err != nil {
+				return "seed " + id + ": patch does not apply to the current tree (skipped): " + strings.TrimSpace(strings.SplitN(string(b), "\n", 2)[0])
+			}
+			defer func() {
+				rules.ResetMemos()
+				debug.FreeOSMemory()
+			}()
+			p, err := core.Load(tmp, "linux")
+			if err != nil {
+				return "seed " + id + ": scratch copy does not load: " + strings.SplitN(err.Error(), "\n", 2)[0]
+			}
+			c := core.NewCtx(p, prop, "quick")
+			for _, r := range rules.Registry[prop] {
+				c.SetRule(r.ID)
+				func() {
+					defer func() {
+						if r := recover(); r != nil {
+							c.Unknown("panic", 0, nil, "rule runs", fmt.Sprint(r))
+						}
+					}()
+					r.Run(c)
+				}()
+			}
+			fired := map[string]int{}
+			for _, o := range c.Obs {
+				if o.Verdict == core.Violation || o.Verdict == core.Undecided {
+					fired[o.Rule]++
+				}
+			}
+			if len(fired) == 0 {
+				return "seed " + id + ": NOT reported by " + prop + "'s rules on the scratch copy"
+			}
+			var rs []string
+			for r, n := range fired {
+				rs = append(rs, fmt.Sprintf("%s×%d", r, n))
+			}
+			sort.Strings(rs)
+			return "seed " + id + ": reported on the scratch copy by " + strings.Join(rs, " ")
+		}()
+		out = append(out, line)
+	}
+	return out
 }
 
 var progCache = map[string]*core.Prog{}
